@@ -659,6 +659,15 @@ def m_np_all(ip, args, kw, st, node):
     return [(Sym(z3.ForAll([j], z3.Implies(z3.And(0 <= j, j < sv.n), cond)), "bool"), st)]
 
 
+@model("np.isfinite")
+def m_np_isfinite(ip, args, kw, st, node):
+    """A-REAL: sample values are mathematical reals, so every one is finite (nan / inf are outside the encoding: bounded stand-in only)"""
+    v = args[0]
+    if isinstance(v, (SeqV, ListLoc)):
+        return [(_elementwise(ip, v, st, lambda x: z3.BoolVal(True), ety="bool"), st)]
+    return [(True, st)]
+
+
 @model("np.abs")
 def m_np_abs(ip, args, kw, st, node):
     v = args[0]
